@@ -187,7 +187,7 @@ def run(ctx):
                     rels.append(relations.relate("SameAll", ri, text, ru, text, meta=dict(meta, what="unknown entries", list=lst2)))
     # census with the option (Trace_Run!C01_Census uses ListedRes)
     recs, metas, _ = runbank.run_and_record(ctx, cases)
-    viol = runbank.validate(ctx, recs, metas, ["C01_Census", "C01_ExactlyOnce"], "titrate-only census")
+    viol = runbank.validate(ctx, recs, metas, ["C01_Census", "C01_ExactlyOnce", "C14_UnlistedUnscored"], "titrate-only census")
     texts = {c[0]: c for c in cases}
     for inv, lst in sorted(viol.items()):
         for rec, m in lst[:5]:
